@@ -34,7 +34,8 @@ OpEventVerdict(c, e) ==
   IF \E i \in DOMAIN e.args : ~MR!StoredOK(c, e.args[i].keys, e.args[i].coefs)
   THEN "operand_not_well_formed"
   ELSE MR!OpVerdict(c, e.op, [i \in DOMAIN e.args |-> DecodeMV(c, e.ring, e.args[i])],
-                    e.params, e.raised, e.res.keys, DecodeCoefs(e.ring, e.res.coefs))
+                    e.params, e.raised, e.res.keys, DecodeCoefs(e.ring, e.res.coefs),
+                    DecodeMV(c, e.ring, e.witness))
 
 Verdict(e) ==
   CASE e.kind = "op" -> OpEventVerdict(CC, e)
